@@ -537,6 +537,15 @@ def r17_5_response(rep, facts):
     configured limit / constant "0", padding appended once, header patched in place; RESPONSE_LEN covers the maximum."""
     name = "protocol::vars::ProtocolVariables::write_response"
     b = facts.body(name)
+
+    def direct_names(bb):
+        return [F.norm(blk["t"]["func"]["res"]["path"] if blk["t"]["func"].get("res") else blk["t"]["func"].get("path", ""))
+                for blk in bb.blocks if blk["t"]["k"] == "call" and "func" in blk["t"]]
+    if "protocol::nv::write" not in direct_names(b):
+        # a thin (e.g. generic-to-dyn) wrapper around a helper that is new relative to the pinned tree: the rules apply to where the work is done
+        cands = [cb for nm_ in direct_names(b) if facts.is_new_helper(nm_) for cb in facts.by_npath.get(nm_, []) if "protocol::nv::write" in direct_names(cb)]
+        if len(cands) == 1:
+            b = cands[0]
     g = ieg.IEG(facts, b, inline_filter=lambda x: False)
     r = ir.Resolver(b)
     calls = [(bi, blk["t"]) for bi, blk in enumerate(b.blocks) if blk["t"]["k"] == "call" and not blk["t"].get("sp", {}).get("n")]
